@@ -835,6 +835,27 @@ func registerIntrinsics(e *Engine) {
 		res = strConcat(strConcat(res, ": "), m.textOf(st[2], 0))
 		return strConcat(strConcat(res, ": "), st[3])
 	}
+	// --- environment stub: unstructured -> typed conversion (reflection-based in k8s). The harness registers
+	// the outcome inside the unstructured map: "zz_fail" -> conversion error, "zz_typed" -> the typed object.
+	in["(*k8s.io/apimachinery/pkg/runtime.unstructuredConverter).FromUnstructured"] = func(fr *frame, args []value) value {
+		m := fr.m
+		u := args[1].(*omap)
+		if _, bad := m.mapLookup(u, "zz_fail"); bad {
+			return m.mkError("environment: schema conversion failed")
+		}
+		tv, ok := m.mapLookup(u, "zz_typed")
+		if !ok {
+			panic(unsupported("FromUnstructured on an object the harness did not register"))
+		}
+		src := tv.(iface)
+		dst := args[2].(iface)
+		if !types.Identical(src.t, dst.t) {
+			return m.mkError("environment: registered object has another type")
+		}
+		pt := src.t.Underlying().(*types.Pointer)
+		store(pt.Elem(), dst.v.(*value), load(pt.Elem(), src.v.(*value)))
+		return nilError()
+	}
 	in["time.Now"] = func(fr *frame, args []value) value { return zero(fr.m.pkgType("time", "Time")) }
 	in["time.Since"] = func(fr *frame, args []value) value { return int64(0) }
 	registerVF(e)
